@@ -160,7 +160,9 @@ def run(ctx):
             if s.k == 'DeclRefExpr' and s.declid == seqp:
                 return pol is False          # seqnum evaluates to false
             return True
-        reach0 = mc.reach_from(mc.entry, edge_ok=zero) | {mc.entry}
+        vz = q.valuation_edge_filter(mp, {seqp: 0})          # also whole conditions that are decided by seqnum == 0: !(_opened && seqnum)
+        zero2 = lambda v, w, lab, _z=zero, _v=vz: _z(v, w, lab) and _v(v, w, lab)
+        reach0 = mc.reach_from(mc.entry, edge_ok=zero2) | {mc.entry}
         rets0 = [n for (v, kind, n) in mc.exits() if kind == 'return' and v in reach0]
         def ret_can_be_true(r, edge):
             val = q.eval_int(r.children[0], {seqp: 0})
